@@ -32,6 +32,9 @@ fn c03_execution_stays_within_limits() {
         ("cond loop JUMPDEST CALLDATASIZE PUSH1 0 JUMPI STOP", vec![0x5b, 0x36, 0x60, 0x00, 0x57, 0x00]),
         ("two JUMPI to one target", vec![0x36, 0x60, 0x0a, 0x57, 0x36, 0x60, 0x0a, 0x57, 0x00, 0x00, 0x5b, 0x60, 0x00, 0x56]),
         ("growing stack loop", vec![0x5b, 0x60, 0x01, 0x36, 0x60, 0x00, 0x57, 0x00]),
+        ("self-loop with code behind the JUMP", vec![0x5b, 0x60, 0x00, 0x56, 0x00, 0x00]),
+        ("backward JUMP loop with JUMPI exit", vec![0x5b, 0x36, 0x60, 0x0a, 0x57, 0x60, 0x01, 0x60, 0x00, 0x56, 0x5b, 0x00]),
+        ("jump sled", { let mut v = vec![]; for k in 0..8u8 { v.extend([0x60, 4 * (k + 1), 0x56, 0x5b]); } v.push(0x00); v.insert(0, 0x5b); for k in 0..8usize { v[2 + 4 * k] += 1; } v }),
     ];
     let mut cases = 0;
     let mut rng = Rng::seeded(3);
